@@ -1410,6 +1410,15 @@ impl Server {
     /// Perform any necessary cleanup before putting the server
     /// connection back in the pool
     pub async fn checkin_cleanup(&mut self) -> Result<(), Error> {
+        // A server in the COPY sub-protocol does not execute what we would send to clean it up,
+        // it reads any query as a protocol violation. There is no way to leave the sub-protocol
+        // from here, don't reuse the connection.
+        if self.in_copy_mode() {
+            warn!(target: "pgcat::server::cleanup", "Server returned while still in copy-mode");
+            self.mark_bad("returned while still in copy-mode");
+            return Ok(());
+        }
+
         // Client disconnected with an open transaction on the server connection.
         // Pgbouncer behavior is to close the server connection but that can cause
         // server connection thrashing if clients repeatedly do this.
